@@ -186,9 +186,9 @@ type Script struct {
 	// User / Pass are the credentials the camera checks Authorization headers
 	// against. PassIsMD5 makes the camera use hex(MD5(Pass)) as the password
 	// (cameras that store the password hashed).
-	User, Pass string
-	PassIsMD5  bool
-	Realm      string // default "fakecam"
+	User, Pass   string
+	PassIsMD5    bool
+	Realm        string // default "fakecam"
 	SDP          string // session description served by DESCRIBE
 	VideoControl string // a=control value of the video section (to tell the two SETUPs apart); default "streamid=0"
 	AudioControl string // default "streamid=1"
@@ -230,22 +230,22 @@ func (r *Request) Get(name string) string {
 
 // ConnRecord is what happened on one accepted connection.
 type ConnRecord struct {
-	Accepted     time.Time
-	Requests     []Request
-	PlayOK       bool   // PLAY was answered with a well-formed 200
-	PeerClosed   bool   // the peer's FIN or RST was observed while the camera still held the socket
-	PeerCloseHow string // "fin", "rst", or the error text
-	PeerClosedAt time.Time
-	SelfClosed   string // "", "rst", "shutdown-wr", "teardown"
-	SelfClosedAt time.Time
-	FramesSent   int
+	Accepted      time.Time
+	Requests      []Request
+	PlayOK        bool   // PLAY was answered with a well-formed 200
+	PeerClosed    bool   // the peer's FIN or RST was observed while the camera still held the socket
+	PeerCloseHow  string // "fin", "rst", or the error text
+	PeerClosedAt  time.Time
+	SelfClosed    string // "", "rst", "shutdown-wr", "teardown"
+	SelfClosedAt  time.Time
+	FramesSent    int
 	FramesSkipped int // frames of a track that was never set up
-	KeepAlives   int
-	ParseError   string // the peer sent something that is no RTSP request
-	Interleaved  int    // '$' frames received from the peer
-	Responses    int    // RTSP responses received from the peer
-	WriteError   string
-	Channels     [2][2]int // [track][rtp,rtcp] interleaved channel numbers granted; -1 = not set up
+	KeepAlives    int
+	ParseError    string // the peer sent something that is no RTSP request
+	Interleaved   int    // '$' frames received from the peer
+	Responses     int    // RTSP responses received from the peer
+	WriteError    string
+	Channels      [2][2]int // [track][rtp,rtcp] interleaved channel numbers granted; -1 = not set up
 }
 
 // Camera is a running fake camera.
@@ -877,12 +877,12 @@ func (cn *conn) challenge(scheme string) string {
 // ---------------------------------------------------------------- request handling
 
 var badStatusLines = []string{
-	"RTSP/1.0 2000 OK",         // four-digit code
-	"RTSP/1.0",                 // no code at all
-	"RTSP/1.0 abc OK",          // non-numeric code
+	"RTSP/1.0 2000 OK",          // four-digit code
+	"RTSP/1.0",                  // no code at all
+	"RTSP/1.0 abc OK",           // non-numeric code
 	"garbage without any space", // not a Status-Line
-	"RTSP/1.0 -20 OK",          // signed code
-	"RTSP/1.0  OK",             // empty code
+	"RTSP/1.0 -20 OK",           // signed code
+	"RTSP/1.0  OK",              // empty code
 }
 
 var garbageSDPs = []string{
@@ -896,13 +896,13 @@ var garbageSDPs = []string{
 
 // media sections without a usable format (the session level part is added in front)
 var formatlessMedia = []string{
-	"m=video 0 udp 96\r\na=control:streamid=0\r\n",                         // not an RTP profile: fmt list is opaque
-	"m=video 0 RTP/AVP\r\na=control:streamid=0\r\n",                        // fmt list missing
-	"m=video 0 RTP/AVP \r\na=control:streamid=0\r\n",                       // fmt list empty
-	"m=audio 0 MP2T/H2221/UDP 33\r\na=control:streamid=1\r\n",              // audio, non-RTP profile
-	"m=video 0 RTP/AVP 96\r\na=control:streamid=0\r\n",                     // dynamic payload type without rtpmap
-	"m=application 0 RTP/AVP 107\r\na=control:streamid=2\r\n",              // neither audio nor video
-	"m=video 0 RTP/AVP 96\r\na=rtpmap:96\r\na=control:streamid=0\r\n",      // rtpmap without encoding name
+	"m=video 0 udp 96\r\na=control:streamid=0\r\n",                    // not an RTP profile: fmt list is opaque
+	"m=video 0 RTP/AVP\r\na=control:streamid=0\r\n",                   // fmt list missing
+	"m=video 0 RTP/AVP \r\na=control:streamid=0\r\n",                  // fmt list empty
+	"m=audio 0 MP2T/H2221/UDP 33\r\na=control:streamid=1\r\n",         // audio, non-RTP profile
+	"m=video 0 RTP/AVP 96\r\na=control:streamid=0\r\n",                // dynamic payload type without rtpmap
+	"m=application 0 RTP/AVP 107\r\na=control:streamid=2\r\n",         // neither audio nor video
+	"m=video 0 RTP/AVP 96\r\na=rtpmap:96\r\na=control:streamid=0\r\n", // rtpmap without encoding name
 }
 
 const sessionLevel = "v=0\r\no=- 0 0 IN IP4 127.0.0.1\r\ns=fakecam\r\nc=IN IP4 127.0.0.1\r\nt=0 0\r\n"
